@@ -50,9 +50,13 @@ def definitions(repo, res):
     expect_stmt(res, 'SPEC', f, 'data_mask = ' + nf_text('~np.isfinite(data_cutout)'), 'non-finite data pixels masked')
     expect_stmt(res, 'SPEC', f, 'data_mask BitOr= mask_cutout', 'input mask joined')
     f = repo.method(SC, '_cutout_total_masks')
-    expect_stmt(res, 'SPEC', f, nf_text('masks.append(mask1 | mask2)'), 'total mask = segment mask | data mask')
-    loops = [n for n in ast.walk(f.node) if isinstance(n, ast.For)]
-    ok = len(loops) == 1 and nf(loops[0].iter) == nf_text('zip(self._cutout_segment_masks, self._cutout_data_masks, strict=True)')
+    comps = [n for n in ast.walk(f.node) if isinstance(n, ast.ListComp)]
+    ok = len(comps) == 1 and len(comps[0].generators) == 1 and isinstance(comps[0].elt, ast.BinOp) and isinstance(comps[0].elt.op, ast.BitOr) \
+        and nf(comps[0].generators[0].iter) == nf_text('zip(self._cutout_segment_masks, self._cutout_data_masks, strict=True)') \
+        and sorted([nf(comps[0].elt.left), nf(comps[0].elt.right)]) == sorted(nf(e_) for e_ in comps[0].generators[0].target.elts)
+    res.oblige('SPEC', '_cutout_total_masks: total mask = segment mask | data mask, element by element', ok, nontrivial=True)
+    if not ok:
+        res.add(Finding('SPEC', f.fullname, 'total mask', f.loc, '_cutout_total_masks must be [segment_mask | data_mask for each source]', {}))
     res.oblige('SPEC', '_cutout_total_masks pairs segment masks with data masks', ok, nontrivial=True)
     if not ok:
         res.add(Finding('SPEC', f.fullname, 'total mask operands', f.loc, '_cutout_total_masks must combine _cutout_segment_masks with _cutout_data_masks', {}))
@@ -111,14 +115,16 @@ def definitions(repo, res):
     expect_stmt(res, 'SPEC', f, 'areas = ' + nf_text('np.array([arr.size for arr in self._data_values]).astype(float)'), 'area = number of unmasked segment pixels')
     expect_stmt(res, 'SPEC', f, nf_text('areas[self._all_masked]') + ' = ' + nf_text('np.nan'), 'NaN area for completely masked sources')
     f = repo.method(SC, 'segment_area')
-    expect_stmt(res, 'SPEC', f, nf_text('areas.append(np.count_nonzero(self._segment_img[slices] == label))'),
+    expect_stmt(res, 'SPEC', f, 'areas = ' + nf_text('[np.count_nonzero(self._segment_img[slices] == label) '
+                                                       'for label, slices in zip(self.labels, self._slices_iter, strict=True)]'),
                 'segment_area counts the pixels carrying this label (not other labels in the box)')
     for nm, fn in (('min_value', 'min'), ('max_value', 'max')):
         f = repo.method(SC, nm)
         expect_stmt(res, 'SPEC', f, 'values = ' + nf_text(f'np.array([np.{fn}(array) for array in self._data_values])'), f'{nm} over the unmasked segment pixels')
     for nm in ('minval_index', 'maxval_index'):
         f = repo.method(SC, nm)
-        expect_stmt(res, 'T-FRAME', f, nf_text('out.append((idx[0] + slc[0].start, idx[1] + slc[1].start))'),
+        expect_stmt(res, 'T-FRAME', f, 'out = ' + nf_text('[(idx[0] + slc[0].start, idx[1] + slc[1].start) '
+                                                          'for idx, slc in zip(index, self._slices_iter, strict=True)]'),
                     f'{nm}: cutout index re-based with the slice origin of the same axis')
     for nm, spec in (('bbox_xmin', 'np.array([slc[1].start for slc in self._slices_iter])'),
                      ('bbox_xmax', 'np.array([slc[1].stop - 1 for slc in self._slices_iter])'),
@@ -198,7 +204,7 @@ def run(repo, tier):
     res.floor('SIBDECOR', 12)
     res.floor('MIRROR', 5)
     res.floor('T-AXIS', 25)
-    res.floor('loops-examined', 30)
+    res.floor('loops-examined', 20)
     from .common import run_label_eq
     run_label_eq(repo, res, {'photutils.segmentation.core', 'photutils.segmentation.catalog'})
     res.floor('LABEL-EQ', 3)
